@@ -323,7 +323,21 @@ func VerifC14S(p C14SParams) *vsched.Scenario {
 				<-subC.Feed
 			}
 			put("a/7", 7)
-			if _, ok := <-subB.Feed; ok {
+			// records delivered before the cancel may still be buffered: drain them, then the feed must be closed
+			closedB := false
+		drainB:
+			for {
+				select {
+				case _, ok := <-subB.Feed:
+					if !ok {
+						closedB = true
+						break drainB
+					}
+				default:
+					break drainB
+				}
+			}
+			if !closedB {
 				c14fail("feed-closed-after-cancel", "open", "the second cancelled subscription's feed is not closed\n%s", desc())
 			}
 			select {
